@@ -253,7 +253,10 @@ def run_case(case: dict[str, Any]) -> dict[str, Any]:
         for fr in ix.finalizer_removals(uid):
             cov['releases_checked'] += 1
             before = w.body_at(uid, fr.prev_rv)
-            recent = [v['body'] for v in versions if v['g'] < fr.g][-3:]
+            # what the operator may have been looking at when it decided: the last three versions and everything of the last second
+            # (watch lag up to 0.3 s + request latencies); a handler must match ALL of them to count as requiring the finalizer
+            prior = [v for v in versions if v['g'] < fr.g]
+            recent = [v['body'] for v in prior if v in prior[-3:] or v['t'] >= fr.t - 1.0]
             label_sets = [(b['metadata'].get('labels') or {}) for b in recent] or [{}]
             deleting = bool(before and before['metadata'].get('deletionTimestamp'))
             inc = fr.client
@@ -293,7 +296,10 @@ def run_case(case: dict[str, Any]) -> dict[str, Any]:
                     missing = [h for h in del_handlers if not (specs[h].get('opts') or {}).get('optional') and matches(specs[h], labels) and h not in finals]
                     problems.append(missing)
                 if all(problems):
-                    viol.append({'mech': 'released-before-delete-handlers', 'msg': f"{uid}: finalizer released by request #{fr.idx} while mandatory deletion handlers {problems[-1]} had no final outcome",
+                    # was this release decided for an OLDER state and only carried over a write conflict (422) onto the newer one?
+                    conflicted = [r for r in w.requests if r.client == inc and r.kind == 'patch' and r.name == fr.name and r.status == 422 and (g_mark or 0) < r.g < fr.g
+                                  and isinstance(r.payload, list) and any(str(op.get('path', '')).startswith('/metadata/finalizers') for op in r.payload)]
+                    viol.append({'mech': 'release-carried-over-a-conflict-onto-newer-state' if conflicted else 'released-before-delete-handlers', 'msg': f"{uid}: finalizer released by request #{fr.idx} while mandatory deletion handlers {problems[-1]} had no final outcome",
                                  'witness': {'write': fr.brief()}})
             else:
                 cov['nondeleting_releases'] += 1
